@@ -4177,25 +4177,29 @@ class BitmapReachability:
         if exclude_shas and result_pack and combined_bitmap:
             exclude_bitmaps = find_commit_bitmaps(exclude_shas, [result_pack])
 
-            if len(exclude_bitmaps) == len(exclude_shas):
-                # All excludes have bitmaps, compute exclusion
-                exclude_combined = None
+            if len(exclude_bitmaps) < len(exclude_shas):
+                # Without a bitmap for every excluded commit the exclusion
+                # cannot be computed here; let the caller fall back to graph
+                # traversal rather than answer without (part of) it.
+                return None
 
-                for commit_sha in exclude_shas:
-                    _pack, pack_bitmap, _sha_to_pos = exclude_bitmaps[commit_sha]
-                    exclude_bitmap = pack_bitmap.get_bitmap(commit_sha)
+            exclude_combined = None
 
-                    if exclude_bitmap is None:
-                        break
+            for commit_sha in exclude_shas:
+                _pack, pack_bitmap, _sha_to_pos = exclude_bitmaps[commit_sha]
+                exclude_bitmap = pack_bitmap.get_bitmap(commit_sha)
 
-                    if exclude_combined is None:
-                        exclude_combined = exclude_bitmap
-                    else:
-                        exclude_combined = exclude_combined | exclude_bitmap
+                if exclude_bitmap is None:
+                    return None
 
-                # Subtract excludes using set difference
-                if exclude_combined:
-                    combined_bitmap = combined_bitmap - exclude_combined
+                if exclude_combined is None:
+                    exclude_combined = exclude_bitmap
+                else:
+                    exclude_combined = exclude_combined | exclude_bitmap
+
+            # Subtract excludes using set difference
+            if exclude_combined:
+                combined_bitmap = combined_bitmap - exclude_combined
 
         if combined_bitmap and result_pack:
             return (combined_bitmap, result_pack)
